@@ -76,6 +76,14 @@ func (ctx *Ctx) GenVC(fc *FuncContract) (res *FuncResult) {
 		}
 		entry.assume(t)
 	}
+	for _, w := range fc.Where {
+		t, err := env.EvalBool(w.E)
+		if err != nil {
+			res.Err = fmt.Sprintf("where %s does not resolve: %v", w.Label, err)
+			return res
+		}
+		entry.assume(t)
+	}
 	entry.reach = vc.Define("pre", entry.reach)
 	if err := fr.encodeBody(entry); err != nil {
 		res.Err = "outside the supported subset: " + err.Error()
